@@ -220,12 +220,19 @@ def q_hash_layer(env, name=None):
             want = seq_of(be_bytes(uf("HMAC_" + nm, SEQ, SEQ, z3.BitVecSort(bits))(r.ctx.k, r.ctx.x), bits // 8))
 
             def replay(fn=fn):
-                data, key = bytes(range(1, 50)), bytes(range(3, 3 + 150))
-                req, nat = native({"op": "hash", "fn": fn, "input": data.hex(), "key": key.hex()})
-                ref = py_ref(fn, data, key)
-                if ref is None:
-                    return {"request": req, "native": nat, "reproduced": False, "note": "no independent reference for this HMAC variant in the replay tool"}
-                return {"request": req, "op_index": 0, "expected": ref.hex(), "native": nat, "reproduced": any(v.get("ok") != ref.hex() for v in nat.values())}
+                # key lengths on both sides of the 64- and 128-byte block sizes (a key longer than the block is hashed first: RFC 2104)
+                data = bytes(range(1, 50))
+                out = None
+                for klen in (150, 0, 12, 64, 65, 100, 128, 129):
+                    key = bytes((3 + i) % 256 for i in range(klen))
+                    req, nat = native({"op": "hash", "fn": fn, "input": data.hex(), "key": key.hex()})
+                    ref = py_ref(fn, data, key)
+                    if ref is None:
+                        return {"request": req, "native": nat, "reproduced": False, "note": "no independent reference for this HMAC variant in the replay tool"}
+                    out = {"request": req, "op_index": 0, "expected": ref.hex(), "native": nat, "reproduced": any(v.get("ok") != ref.hex() for v in nat.values())}
+                    if out["reproduced"]:
+                        break
+                return out
             check(ex, r, r.ret.f[0].s, want, f"Hash::{fn}(input, key) = HMAC(key, input)", replay)
         finish(qr, ex)
 
